@@ -32,6 +32,7 @@ const (
 	NA  = 5   // actors 0,1,2: users; 3,4: deputies
 	ESC = 100 // htlc module account
 	BLK = 101 // fee collector (blocked as a recipient)
+	GOV = 102 // gov module account = the authority of MsgUpdateParams
 	T0  = int64(1700000000)
 
 	longRun = 256 // runs of more block boundaries than this carry one time step
@@ -76,6 +77,10 @@ type Step struct {
 	Who int `json:",omitempty"`
 	// adv
 	DtsMs []int64 `json:",omitempty"`
+	RunN  int64   `json:",omitempty"` // adv: RunN block boundaries with the time step RunDtMs each (long idle stretches)
+	RunDtMs int64 `json:",omitempty"`
+	// setparams: MsgUpdateParams signed by Who with the asset parameters NewParams (same denoms, same order)
+	NewParams []AssetP `json:",omitempty"`
 }
 
 type History struct {
@@ -128,8 +133,10 @@ func genParams(r *lib.Rand) []AssetP {
 func gen(r *lib.Rand, tier, stream string, i int) History {
 	h := History{Params: genParams(r)}
 	w := newWorld(h.Params)
+	curP := append([]AssetP{}, h.Params...) // the asset parameters in force (changed by setparams steps)
 	e := w.e
 	nsteps := int(r.Range(24, 46))
+	withParamChange := r.Chance(1, 3) // a third of the histories contain parameter changes (the property monitors stop at the first one)
 	maxLock := int64(120)
 	if tier == "thorough" {
 		nsteps = int(r.Range(25, 80))
@@ -176,7 +183,11 @@ func gen(r *lib.Rand, tier, stream string, i int) History {
 	advance := func(n int64, dt int64, exact bool) {
 		var dts []int64
 		if n > longRun { // long idle stretches use one time step (printed as CAdvN: coqc cannot parse a 34 560-element list literal)
-			exact = true
+			if dt < 0 {
+				dt = 0
+			}
+			push(Step{Kind: "adv", RunN: n, RunDtMs: dt})
+			return
 		}
 		for k := int64(0); k < n; k++ {
 			d := dt
@@ -194,11 +205,11 @@ func gen(r *lib.Rand, tier, stream string, i int) History {
 		switch r.Weighted(6, 2, 1) {
 		case 1: // land on / around the boundary of the limit period of one of the time-limited assets
 			d := 1
-			if h.Params[0].TL && r.Chance(1, 2) {
+			if curP[0].TL && r.Chance(1, 2) {
 				d = 0
 			}
 			_, _, _, _, el := supply(d)
-			return h.Params[d].PeriodMs - el + r.Range(-1, 1), true
+			return curP[d].PeriodMs - el + r.Range(-1, 1), true
 		case 2:
 			return r.Range(0, 2), true
 		}
@@ -239,7 +250,7 @@ func gen(r *lib.Rand, tier, stream string, i int) History {
 		var holders [][2]int
 		for u := 0; u < 3; u++ {
 			for d := 0; d < 2; d++ {
-				p := h.Params[d]
+				p := curP[d]
 				_, out, cur, _, _ := supply(d)
 				if b := balOf(u, d); b.IsInt64() && b.Int64() >= p.Fee+p.Min && cur-out >= p.Fee+p.Min {
 					holders = append(holders, [2]int{u, d})
@@ -301,7 +312,7 @@ func gen(r *lib.Rand, tier, stream string, i int) History {
 			}
 		case 1, 3, 4: // incoming
 			d := r.Intn(2)
-			p := h.Params[d]
+			p := curP[d]
 			in, _, cur, tlc, _ := supply(d)
 			room := p.Limit - cur - in
 			if p.TL {
@@ -309,7 +320,7 @@ func gen(r *lib.Rand, tier, stream string, i int) History {
 			}
 			if forceD >= 0 {
 				d = forceD
-				p = h.Params[d]
+				p = curP[d]
 				in, _, cur, tlc, _ = supply(d)
 				room = p.Limit - cur - in
 				if p.TL {
@@ -317,7 +328,7 @@ func gen(r *lib.Rand, tier, stream string, i int) History {
 				}
 			} else if room < p.Min && r.Chance(3, 4) { // the other asset may have room
 				d = 1 - d
-				p = h.Params[d]
+				p = curP[d]
 				in, _, cur, tlc, _ = supply(d)
 				room = p.Limit - cur - in
 				if p.TL {
@@ -351,7 +362,7 @@ func gen(r *lib.Rand, tier, stream string, i int) History {
 				amt = 1
 			}
 			if kind == 4 {
-				d, p = 2, h.Params[2]
+				d, p = 2, curP[2]
 			}
 			st.Transfer = true
 			st.Sender, st.To = p.Deputy, r.Intn(3)
@@ -370,7 +381,7 @@ func gen(r *lib.Rand, tier, stream string, i int) History {
 				x := holders[r.Intn(len(holders))]
 				u, d = x[0], x[1]
 			}
-			p := h.Params[d]
+			p := curP[d]
 			_, out, cur, _, _ := supply(d)
 			b := balOf(u, d).Int64()
 			hi := minI(b, p.Max, cur-out)
@@ -422,7 +433,9 @@ func gen(r *lib.Rand, tier, stream string, i int) History {
 			st.LockMode = 2
 		}
 		// malformed minority
-		switch r.Weighted(60, 1, 1, 1, 1, 1, 1, 1) {
+		switch r.Weighted(60, 1, 1, 1, 1, 1, 1, 1, 2) {
+		case 8: // the recipient is the htlc module account itself (an ordinary message; the coins would never leave escrow)
+			st.To = ESC
 		case 1:
 			st.Lock = []int64{49, 34561, 0}[r.Intn(3)]
 		case 2:
@@ -494,7 +507,7 @@ func gen(r *lib.Rand, tier, stream string, i int) History {
 	burst := func() {
 		var tls []int
 		for d := 0; d < 2; d++ {
-			if h.Params[d].TL {
+			if curP[d].TL {
 				tls = append(tls, d)
 			}
 		}
@@ -515,6 +528,87 @@ func gen(r *lib.Rand, tier, stream string, i int) History {
 				claim(cs[len(cs)-1], true)
 			}
 			advance(r.Range(1, 2), r.Range(300, 2500), false)
+		}
+	}
+	// setparams: the authority changes the asset parameters (values only: denoms and order stay).  Mostly
+	// valid sets - limits raised or cut (also below the current usage), time-based limit, period, active
+	// flag, deputy, fee, swap and lock bounds, time-limited flag -, sometimes an invalid set or a stranger.
+	setparams := func() {
+		np := append([]AssetP{}, curP...)
+		who := GOV
+		for n := int(r.Range(1, 3)); n > 0; n-- {
+			d := r.Intn(len(np))
+			p := &np[d]
+			in, _, cr, tlc, _ := supply(d)
+			switch r.Weighted(3, 2, 2, 2, 1, 1, 2, 2, 1, 1) {
+			case 0: // raise the limits
+				p.Limit += r.Range(1, 800)
+				if p.TL {
+					p.Tbl = r.Range(p.Tbl, p.Limit)
+				}
+			case 1: // cut the limit: down to the usage, one below it, or far below
+				lo := cr + in + r.Range(-1, 1)
+				if r.Chance(1, 3) {
+					lo = r.Range(1, p.Limit)
+				}
+				if lo < 1 {
+					lo = 1
+				}
+				p.Limit = lo
+				if p.Tbl > p.Limit {
+					p.Tbl = p.Limit
+				}
+			case 2: // time-based limit around the usage of the window
+				if p.TL {
+					t := tlc + in + r.Range(-1, 60)
+					if t < 0 {
+						t = 0
+					}
+					if t > p.Limit {
+						t = p.Limit
+					}
+					p.Tbl = t
+				}
+			case 3:
+				p.PeriodMs = r.Range(15, 90) * 1000
+			case 4:
+				p.Active = !p.Active
+			case 5:
+				p.Deputy = 7 - p.Deputy // 3 <-> 4
+			case 6:
+				p.Fee = r.Range(0, 10)
+				p.Min = r.Range(1, 6)
+				p.Max = r.Range(p.Min, p.Min+600)
+			case 7:
+				p.MinLock = r.Range(50, 70)
+				p.MaxLock = r.Range(p.MinLock, 130)
+			case 8: // switch the time limit on / off
+				p.TL = !p.TL
+				if p.TL {
+					p.Tbl = r.Range(p.Limit/6, p.Limit)
+					p.PeriodMs = r.Range(20, 90) * 1000
+				}
+			case 9: // invalid sets
+				switch r.Intn(5) {
+				case 0:
+					p.Tbl = p.Limit + 1
+				case 1:
+					p.Min = p.Max + 1
+				case 2:
+					p.MinLock = 49
+				case 3:
+					p.Fee = -1
+				case 4:
+					np = append(np, np[d]) // duplicate denom
+				}
+			}
+		}
+		if r.Chance(1, 10) {
+			who = r.Intn(NA) // not the authority
+		}
+		res := push(Step{Kind: "setparams", Who: who, NewParams: np})
+		if res.code == 0 {
+			curP = np
 		}
 	}
 	anyC := func() *genC {
@@ -541,6 +635,8 @@ func gen(r *lib.Rand, tier, stream string, i int) History {
 		switch {
 		case len(cs) > 0 && r.Chance(1, 7):
 			burst()
+		case withParamChange && len(cs) > 0 && r.Chance(1, 9):
+			setparams()
 		case len(cs)+len(failed) == 0 || (len(cs) < targetCreates && r.Chance(2, 3)):
 			create()
 			if r.Chance(1, 3) {
@@ -683,16 +779,9 @@ func newWorld(params []AssetP) *world {
 	w.e = lib.NewEnv(lib.EnvOpts{NActors: NA, Balances: bal, Consumers: []interface{}{&k}, StartTime: start,
 		Merge: func(cdc codec.Codec, state simapp.GenesisState) simapp.GenesisState {
 			gs := htlctypes.GenesisState{PreviousBlockTime: start, Htlcs: []htlctypes.HTLC{}}
+			gs.Params.AssetParams = w.assetParams(params)
 			for _, p := range params {
 				d := denoms[p.Denom]
-				gs.Params.AssetParams = append(gs.Params.AssetParams, htlctypes.AssetParam{
-					Denom: d,
-					SupplyLimit: htlctypes.SupplyLimit{Limit: sdkmath.NewInt(p.Limit), TimeLimited: p.TL,
-						TimePeriod: time.Duration(p.PeriodMs) * time.Millisecond, TimeBasedLimit: sdkmath.NewInt(p.Tbl)},
-					Active: p.Active, DeputyAddress: lib.ActorAddr(p.Deputy).String(), FixedFee: sdkmath.NewInt(p.Fee),
-					MinSwapAmount: sdkmath.NewInt(p.Min), MaxSwapAmount: sdkmath.NewInt(p.Max),
-					MinBlockLock: uint64(p.MinLock), MaxBlockLock: uint64(p.MaxLock),
-				})
 				z := sdk.NewCoin(d, sdkmath.ZeroInt())
 				gs.Supplies = append(gs.Supplies, htlctypes.NewAssetSupply(z, z, z, z, 0))
 			}
@@ -732,6 +821,18 @@ func (w *world) apply(st Step) result {
 	case "adv":
 		var dts []string
 		code := 0
+		if st.RunN > 0 {
+			for i := int64(0); i < st.RunN; i++ {
+				o := e.BeginBlock(time.Duration(st.RunDtMs) * time.Millisecond)
+				if !o.OK() {
+					code = 2
+					w.note("begin block aborted at height %d: %s", e.Height, o.Err)
+				}
+				w.checkRefundEvents(o)
+			}
+			return result{lib.App("CAdvN", lib.Z(st.RunN), hz64(st.RunDtMs*1000000)), code, "ok", -1,
+				fmt.Sprintf("adv %d blocks of %d ms -> height %d", st.RunN, st.RunDtMs, e.Height), ""}
+		}
 		for _, d := range st.DtsMs {
 			o := e.BeginBlock(time.Duration(d) * time.Millisecond)
 			if !o.OK() {
@@ -777,6 +878,18 @@ func (w *world) apply(st Step) result {
 		term := lib.App("CCreate", lib.Z(int64(idx)), lib.App("mkCreate", lib.Z(int64(st.Sender)), lib.Z(int64(st.To)), coqCoins(st.Amount),
 			lib.Pair(lib.Z(p.secret), hz64(p.lockTs)), hz64(ts), lib.Z(st.Lock), lib.B(st.Transfer)))
 		return result{term, o.Code(), o.Kind, idx, fmt.Sprintf("h%d create#%d %s %d->%d %v lock %d ts %d lockmode %d -> %s %s", e.Height, idx, kind, st.Sender, st.To, st.Amount, st.Lock, ts, st.LockMode, o.Kind, short(o.Err)), o.Err}
+	case "setparams":
+		msg := &htlctypes.MsgUpdateParams{Authority: w.addr(st.Who), Params: htlctypes.Params{AssetParams: w.assetParams(st.NewParams)}}
+		o := e.Deliver(msg)
+		if o.Kind == "abort" {
+			w.note("update params aborted: %s", o.Err)
+		}
+		var ps []string
+		for _, p := range st.NewParams {
+			ps = append(ps, coqParam(p))
+		}
+		return result{lib.App("CSetParams", lib.Z(int64(st.Who)), lib.L(ps...)), o.Code(), o.Kind, -1,
+			fmt.Sprintf("h%d setparams by %d %v -> %s %s", e.Height, st.Who, st.NewParams, o.Kind, short(o.Err)), o.Err}
 	case "claim":
 		idx, ok := w.tagIdx[st.Tag]
 		if !ok {
@@ -839,6 +952,25 @@ func (w *world) checkRefundEvents(o lib.Outcome) {
 	}
 }
 
+func (w *world) assetParams(params []AssetP) []htlctypes.AssetParam {
+	var out []htlctypes.AssetParam
+	for _, p := range params {
+		dep := "not-an-address"
+		if p.Deputy >= 0 && p.Deputy < NA {
+			dep = lib.ActorAddr(p.Deputy).String()
+		}
+		out = append(out, htlctypes.AssetParam{
+			Denom: denoms[p.Denom],
+			SupplyLimit: htlctypes.SupplyLimit{Limit: sdkmath.NewInt(p.Limit), TimeLimited: p.TL,
+				TimePeriod: time.Duration(p.PeriodMs) * time.Millisecond, TimeBasedLimit: sdkmath.NewInt(p.Tbl)},
+			Active: p.Active, DeputyAddress: dep, FixedFee: sdkmath.NewInt(p.Fee),
+			MinSwapAmount: sdkmath.NewInt(p.Min), MaxSwapAmount: sdkmath.NewInt(p.Max),
+			MinBlockLock: uint64(p.MinLock), MaxBlockLock: uint64(p.MaxLock),
+		})
+	}
+	return out
+}
+
 func (w *world) addr(i int) string {
 	switch {
 	case i >= 0 && i < NA:
@@ -847,6 +979,8 @@ func (w *world) addr(i int) string {
 		return lib.ModuleAddr(htlctypes.ModuleName).String()
 	case i == BLK:
 		return lib.ModuleAddr("fee_collector").String()
+	case i == GOV:
+		return lib.ModuleAddr("gov").String()
 	}
 	return "not-an-address"
 }
@@ -1079,7 +1213,13 @@ func exec(h History) lib.Case {
 			} else {
 				lib.Stat(c.Stats, "res:abort")
 			}
-			c.Stats["blocks"] += len(st.DtsMs)
+			c.Stats["blocks"] += len(st.DtsMs) + int(st.RunN)
+		case "setparams":
+			lib.Stat(c.Stats, "op:setparams")
+			lib.Stat(c.Stats, "res:"+r.kind)
+			if r.code == 0 {
+				lib.Stat(c.Stats, "ok:setparams")
+			}
 		case "create":
 			kind := "plain"
 			if st.Transfer {
